@@ -169,6 +169,7 @@ errj = copy.copy(err)
 errj.variant = "J"
 errj.requires = list(err.requires) + [J_SELF]
 errj.ensures = [J_SELF]
+errj.calls = dict(err.calls, **{"self._emitter.emit_on_runstate_change": emit_rsc})
 
 start7.variant = "C07"
 restart7.variant = "C07"
@@ -201,5 +202,11 @@ def _nat():
     return {"ok": not r["violated"], "observation": r}
 
 
-NATIVE = [("native:restart-resets-clocks", _nat)]
+def _nat2():
+    import contracts.c07_native as n
+    r = n.threshold_after_pause_stop_start()
+    return {"ok": not r["violated"], "observation": r}
+
+
+NATIVE = [("native:restart-resets-clocks", _nat), ("native:timers-run-again-after-pause-stop-start", _nat2)]
 REPLAY_WITHOUT_WITNESS = True
